@@ -2,6 +2,7 @@ import ast
 import copy
 import importlib
 import inspect
+import keyword
 import tokenize
 from collections import defaultdict
 from dataclasses import is_dataclass
@@ -704,6 +705,7 @@ def _lambda_at_code_position(
     ast_source: Callable,
     candidates: List[ast.Lambda],
     positions: Dict[int, Tuple[int, int]],
+    source_lines: List[str],
 ) -> Optional[ast.Lambda]:
     """Pick, from several lambdas found in the source, the one whose body contains the code
     of `ast_source`, using the source positions python (3.11+) keeps for each instruction.
@@ -713,8 +715,16 @@ def _lambda_at_code_position(
     code = getattr(ast_source, "__code__", None)
     if code is None or not hasattr(code, "co_positions"):
         return None
+
+    def char_column(line: int, byte_column: int) -> int:
+        "python counts columns in utf-8 bytes, the tokenizer (our `positions`) in characters"
+        if not 0 < line <= len(source_lines):
+            return byte_column
+        as_bytes = source_lines[line - 1].encode("utf-8")
+        return len(as_bytes[:byte_column].decode("utf-8", errors="ignore"))
+
     body_positions = [
-        (line, col)
+        (line, char_column(line, col))
         for line, _, col, end_col in code.co_positions()
         if line is not None and col is not None and not (col == 0 and end_col == 0)
     ]
@@ -838,10 +848,31 @@ def _parse_source_for_lambda(
             for lda in lambda_list
             if lambda_arg_list(lda) == caller_arg_list
         ]
-        if len(good_lambdas) == 1 and len(all_matching) > 1:
-            by_position = _lambda_at_code_position(ast_source, all_matching, lambda_positions)
+        # Lambdas with these arguments that follow a python keyword (the `else` above) rather
+        # than the name of the call they are an argument of: the caller's name can't tell those
+        # from ours.
+        follow_keyword = [
+            lda
+            for name, lambda_list in lambdas_on_a_line.items()
+            if name is not None and keyword.iskeyword(name)
+            for lda in lambda_list
+            if lambda_arg_list(lda) == caller_arg_list
+        ]
+        if len(all_matching) > 1 and (len(good_lambdas) == 1 or len(follow_keyword) > 0):
+            by_position = _lambda_at_code_position(
+                ast_source, all_matching, lambda_positions, source
+            )
             if by_position is not None:
                 good_lambdas = [by_position]
+            elif len(follow_keyword) > 0 and any(
+                ast.dump(lda) != ast.dump(all_matching[0]) for lda in all_matching
+            ):
+                raise ValueError(
+                    "Found several lambdas with the same arguments on one line and python "
+                    "does not say which of them was passed"
+                    + ("" if caller_name is None else f" to {caller_name}")
+                    + " - put them on separate lines or give their arguments different names."
+                )
         if len(good_lambdas) == 0:
             raise ValueError(
                 f"Internal Error - Found no lambda in source with the arguments {caller_arg_list}"
